@@ -12,9 +12,6 @@ Record case_C16 := {
   c_schema : schemaspec;
   c_pre : list job;             (* jobs already present in the importing project *)
   c_strip : bool;               (* state point files deleted from the exported directory before the import *)
-  c_origin_nomatch : bool;      (* library fact about re (directory origins only): the origin path, read as
-                                   the regular expression into which _convert_schema_path_to_regex turns
-                                   literal text, does NOT match the origin path itself ('runs+v2', 'exp(1)') *)
   (* ---- what the implementation did *)
   x_exn : option exn;           (* exception raised by export_to *)
   x_map : list str;             (* destinations returned by export_to (job order); [] if it raised *)
@@ -56,22 +53,8 @@ Definition strip_art (ds : list str) (a : artifact) : artifact :=
 Definition import_input (c : case_C16) : artifact := if c_strip c then strip_art (x_map c) (x_art c) else x_art c.
 
 Definition run_export (c : case_C16) : export_out := export_model (c_oracle c) (c_jobs c) (c_kind c) (c_path c).
-(* a schema string is joined to the directory origin before it is turned into a regular expression; when
-   that origin does not match itself as a regular expression, the schema function yields None for every
-   directory below it - the model of a callable that declines every path *)
-Definition all_none_tab (a : artifact) : list (str * option json) :=
-  match a with
-  | ADir f => (dot, None) :: flat_map (fun e => match strip_prefix TARGET (fst e), snd e with
-                                                | Some (x :: r), None => [(joinw slash (x :: r), None)]
-                                                | _, _ => []
-                                                end) f
-  | _ => []
-  end.
-Definition origin_unmatched (c : case_C16) : bool :=
-  c_origin_nomatch c && match c_kind c, c_schema c with KDir, SchStr _ => true | _, _ => false end.
 Definition run_import (c : case_C16) : import_out :=
-  let sch := if origin_unmatched c then SchCall (all_none_tab (import_input c)) else c_schema c in
-  import_model (c_oracle c) sch (import_input c) (dst_init (c_pre c)).
+  import_model (c_oracle c) (c_schema c) (import_input c) (dst_init (c_pre c)).
 
 (* ---- model and implementation disagree *)
 Definition is_prefix (p q : list str) : bool := match strip_prefix p q with Some _ => true | None => false end.
@@ -368,32 +351,20 @@ Definition is_root (d : str) : bool := is_none (hd_error (loc_of d)).
    tag 1: the import schema is a string that keeps literal text after its last field and describes the
           exported layout; _convert_schema_path_to_regex drops that text, the parent directory is taken
           for the job directory (files one level too deep) - only the round-trip clause fails.
-   tag 2: directory origin, state point files in place, a schema that is wrong (in value) for some
-          exported directory: _analyze_directory_for_import validates lazily, so the error is raised
-          after earlier directories have been copied - only "raises before any job has been copied" fails. *)
+   (tag 2, the lazily validating directory import, and tag 3, origin names read as regular expressions,
+   are repaired in /repo.) *)
 Definition others_hold_but (k : N) (c : case_C16) : bool :=
   h_src c && h_export_contained c && h_unique c && h_leafnode c && h_raise_clean c
   && h_import_contained c && h_no_overwrite c && h_ids c
-  && (N.eqb k 1 || h_roundtrip c) && (N.eqb k 2 || h_import_raise_clean c).
+  && (N.eqb k 1 || h_roundtrip c) && h_import_raise_clean c.
 Definition known1_C16 (c : case_C16) : bool :=
   match c_schema c with
   | SchStr text => trailing_literal text && faithful_by_layout c text
                    && negb (h_roundtrip c) && others_hold_but 1 c
   | _ => false
   end.
-Definition known2_C16 (c : case_C16) : bool :=
-  match c_kind c, c_schema c with
-  | KDir, SchStr _ | KDir, SchCall _ =>
-      negb (c_strip c) && negb (schema_sound c) && schema_checkable c
-      && negb (is_none (i_exn c)) && negb (h_import_raise_clean c) && others_hold_but 2 c
-  | _, _ => false
-  end.
-(* tag 3: directory origin whose own path contains a regular-expression metacharacter, schema string: the
-          joined regex matches nothing, import_from returns {} silently - only the round-trip clause fails *)
-Definition known3_C16 (c : case_C16) : bool :=
-  origin_unmatched c && is_none (i_exn c) && negb (h_roundtrip c) && others_hold_but 1 c.
 Definition known_tag_C16 (c : case_C16) : N :=
-  if known1_C16 c then 1%N else if known2_C16 c then 2%N else if known3_C16 c then 3%N else 0%N.
+  if known1_C16 c then 1%N else 0%N.
 Fixpoint known_aux_C16 (cs : list case_C16) (i : N) : list N :=
   match cs with
   | [] => []
@@ -410,4 +381,4 @@ Definition known_C16 (cs : list case_C16) : list N := known_aux_C16 cs 0%N.
 Definition diag_C16 (c : case_C16) : list bool :=
   [mismatch_export c; mismatch_import c; h_src c; h_export_contained c; h_unique c; h_leafnode c;
    h_raise_clean c; h_import_contained c; h_no_overwrite c; h_roundtrip c; schema_faithful c;
-   h_ids c; h_import_raise_clean c; schema_sound c; schema_checkable c; known1_C16 c; known2_C16 c; known3_C16 c].
+   h_ids c; h_import_raise_clean c; schema_sound c; schema_checkable c; known1_C16 c].
